@@ -95,6 +95,28 @@ fn check(o: &mut Outcome, y: i64, m: i64, d: i64, secs: i64, with_format: bool, 
         if f.as_deref() != Ok(dl) {
             o.div("formatted.date_only", format!("{} serial {} shown as {:?}", dl, day, f));
         }
+        // date formats as spreadsheets carry them: quoted literal text before / between / after the date parts,
+        // locale prefixes, month names; one of them per day, in rotation
+        const MONTHS: [&str; 12] = ["January", "February", "March", "April", "May", "June", "July", "August", "September", "October", "November", "December"];
+        let mon = MONTHS[(m - 1) as usize];
+        let variants: [(&str, String); 10] = [
+            ("\"Due \"dd/mm/yyyy", format!("Due {:02}/{:02}/{:04}", d, m, y)),
+            ("yyyy\"-Q-\"mm", format!("{:04}-Q-{:02}", y, m)),
+            ("[$-409]yyyy/mm/dd", format!("{:04}/{:02}/{:02}", y, m, d)),
+            ("\"Y\"yyyy\"M\"mm\"D\"dd", format!("Y{:04}M{:02}D{:02}", y, m, d)),
+            ("yyyy\"年\"m\"月\"d\"日\"", format!("{:04}年{}月{}日", y, m, d)),
+            ("yyyy\"-\"\"Q\"m", format!("{:04}-Q{}", y, m)),
+            ("\"Date: \"yyyy-mm-dd\" end\"", format!("Date: {:04}-{:02}-{:02} end", y, m, d)),
+            ("d-mmm-yy", format!("{}-{}-{:02}", d, &mon[..3], y % 100)),
+            ("mmmm d, yyyy", format!("{} {}, {:04}", mon, d, y)),
+            ("dd.mm.yyyy", format!("{:02}.{:02}.{:04}", d, m, y)),
+        ];
+        let (fmt, exp) = &variants[(day.rem_euclid(10)) as usize];
+        o.count("formatted.literal-and-locale-formats", 1);
+        let f = guard(|| to_formatted_string(&format!("{}", day), fmt));
+        if f.as_deref() != Ok(exp.as_str()) {
+            o.div("formatted.date_with_literals", format!("{} serial {} with format {:?} shown as {:?}, expected {:?}", dl, day, fmt, f, exp));
+        }
     }
 }
 
